@@ -172,6 +172,9 @@ def strategy(tier):
             w = [draw(st.sampled_from(pool)) for _ in range(n)]
             if draw(st.integers(0, 4)) == 0:
                 w = [1.0] * n
+            elif draw(st.integers(0, 5)) == 0:
+                # weights that are not all 1 but add up to the number of rows (0.5 and 1.5 in turn)
+                w = [0.5 if i_ % 2 == 0 else 1.5 for i_ in range(n)]
         else:
             w = None
         return {"spec": spec, "rep": rep, "batch": batch, "wmode": wmode, "w": w, "cuts": cuts, "excluded": excluded, "views": draw(st.booleans()),
